@@ -95,6 +95,29 @@ pub fn run_c13(out: &mut Out, seed: u64, thorough: bool) {
             }
         }
     }
+    // pairs of writes: a first write that switches a mode (timer enabled / stopped, interrupt mask, board direction /
+    // interrupt-control / output registers, UART control), then every I/O address with boundary bytes (thorough: every byte),
+    // followed by clock edges of the machine
+    {
+        let firsts: &[(u32, u32)] = &[(0xFD, 0x90), (0xFD, 0x80), (0xFD, 0x10), (0xFC, 0), (0xF9, 0xFF), (0xF2, 0x87), (0xF2, 0xC7), (0xF2, 0x07),
+            (0xF0, 255), (0xF1, 255), (0xFA, 0xFF), (0xFB, 0xFF)];
+        let mut s = Sess::new();
+        for (a1, v1) in firsts {
+            for port in 0xF0..=0xFFu32 {
+                for v in 0..=255u32 {
+                    if !thorough && !(v < 3 || v > 252 || v % 32 == 0 || v == 0x7F || v == 0x90) {
+                        continue;
+                    }
+                    run_line(out, &mut s, "new");
+                    run_line(out, &mut s, &format!("busw {} {}", a1, v1));
+                    run_line(out, &mut s, &format!("busw {} {}", port, v));
+                    run_line(out, &mut s, "edges 5");
+                    run_line(out, &mut s, "d");
+                    out.count("write-pair");
+                }
+            }
+        }
+    }
     let cases = if thorough { 3000 } else { 300 };
     for c in 0..cases {
         let mut s = Sess::new();
@@ -161,6 +184,10 @@ fn absorb_probe(out: &mut Out, s: &mut Sess, rng: &mut Rng) {
         run_line(out, s, &l);
         run_line(out, s, "edge");
     }
+    // the interrupt key in particular (whatever the random stimuli were)
+    run_line(out, s, "irq");
+    run_line(out, s, &format!("spec.absorb state {}", halted));
+    run_line(out, s, "edge");
     run_line(out, s, &format!("spec.absorb state {}", halted));
     run_line(out, s, "d");
 }
@@ -246,6 +273,10 @@ pub fn run_c05(out: &mut Out, seed: u64, thorough: bool) {
                     out.sample(l.clone());
                 }
                 run_line(out, &mut s, &l);
+                if case % 2 == 1 {
+                    // the key interrupt enabled in the mask: a key press on a halted machine must still not restart it
+                    run_line(out, &mut s, "busw 249 1");
+                }
                 let budget = if kind <= 2 { 1500 } else { 600 };
                 let mut halts = 0;
                 for i in 0..budget {
